@@ -590,14 +590,20 @@ def overlaps(written, read):
     return False
 
 
+CMP_OPS = ("Eq", "Ne", "Lt", "Le", "Gt", "Ge")
+
+
 def _const_flags(fn):
-    """Names of user bool locals whose every definition assigns a constant."""
+    """Names of user bool locals that are flags: every definition assigns a constant (at least two
+    of them), or the single definition is a comparison (`let matches = a == b;`)."""
     out = set()
     for nm, l, pj in fn.var_places:
         if pj or fn.locals[l]["ty"] != "bool" or l <= fn.arg_count:
             continue
         ds = fn.defs(l)
         if len(ds) >= 2 and all(d[0] == "assign" and d[3]["k"] == "use" and d[3]["op"].get("k") == "const" for d in ds):
+            out.add(nm)
+        elif len(ds) == 1 and ds[0][0] == "assign" and ds[0][3]["k"] == "binop" and ds[0][3].get("op") in CMP_OPS:
             out.add(nm)
     return out
 
@@ -686,6 +692,22 @@ class Flow:
                 vs = self._gen_value(rv)
                 if vs is not None:
                     worlds = frozenset(world_set(w, ("val", ps), vs) for w in worlds)
+                elif rv["k"] == "binop" and rv.get("op") in CMP_OPS and s["place"]["ty"] == "bool" and not s["place"]["proj"]:
+                    # a bound comparison: keep the flag correlated with the predicate it stands for
+                    ei = self.eb.rvalue(rv)
+                    ct = self.cond._cons(self.fn, ei, BOOL_TRUE, 0)
+                    cf = self.cond._cons(self.fn, ei, BOOL_FALSE, 0)
+                    out = set()
+                    for w in worlds:
+                        for cs, bit in ((ct, 1), (cf, 0)):
+                            cur = world_set(w, ("val", ps), (True, frozenset([bit])))
+                            for key, kvs in cs:
+                                cur = world_refine(cur, key, kvs)
+                                if cur is None:
+                                    break
+                            if cur is not None:
+                                out.add(cur)
+                    worlds = frozenset(out)
             if rv["k"] == "agg" and rv["agg"] in ("closure", "coroutine", "coroutine_closure"):
                 e = self.eb_raw.rvalue(rv)
                 for a in e[5]:
